@@ -328,3 +328,21 @@ MANIFEST_TEXT['C20'] = dict(
                'revision for every visiting order of <=3 files with unbounded revisions.',
     level_note='Trusted: CrossHair/z3; fragment location is structural (a missing fragment is a harness error). Whole-process behaviour is outside.')
 _finalise()
+
+PROPS['C04'] = dict(
+    modules=['harness.c04_pysnmp'], level='other',
+    files=TOK_FILES + ['pysmi/codegen/templates/pysnmp/mib-definitions.j2', 'pysmi/codegen/templates/pysnmp/base.j2', 'pysmi/codegen/jfilters.py'],
+    explanation=XH + '. C04 is claimed PARTIALLY: (a) the context handed to the pysnmp template agrees with the JSON context, (b) every importable '
+                'symbol kind is in a class the template exports (read from the template\'s Jinja AST), (c) z3 regex-theory query: language of the real '
+                'identifier rules vs Python identifiers, witnesses replayed by generating and compiling the module.',
+    functions=TOK_FUNCS + ['t_LOWERCASE_IDENTIFIER / t_UPPERCASE_IDENTIFIER patterns (regex -> z3)', 'exports block of mib-definitions.j2 (static)'],
+    stubs=TOK_STUBS, bounds='2 declarations over 11 kinds; identifier witnesses of length <= 3 (unsat answers hold for every length)',
+    outside=['syntactic validity of the whole generated module, its behaviour under MibBuilder, class definition order, everything else the template '
+             'decides: Jinja2 + CPython compile() + pysnmp cannot be executed symbolically here',
+             'observed while replaying: a module that uses INTEGER without importing anything from SNMPv2-SMI generates code that lacks the Integer32 import'],
+    assumptions=[])
+MANIFEST_TEXT['C04'] = dict(
+    technique='CrossHair symbolic execution up to the template call (context agreement, export closure) + z3 regex-theory identifier query with compiled replays', smt=True,
+    level_text='PARTIAL: context agreement, import/export closure and identifier paste-site safety only; validity/loadability of the generated text is outside reach of the technique.',
+    level_note='Trusted: CrossHair/z3, Jinja2 AST of the template. The template layer, CPython and pysnmp are outside.')
+_finalise()
